@@ -100,6 +100,13 @@ def catalogue(kind):
     F.append(("enableBLOB-unknown-device", "<enableBLOB device=\"NOPE\">Also</enableBLOB>", []))
     F.append(("enableBLOB-bad-value", "<enableBLOB device=\"DEV0\">Sometimes</enableBLOB>", []))
     F.append(("getProperties-without-version", "<getProperties device=\"DEV0\"/>", []))
+    # requests that name something that is not there (or only on some devices): ignored, not an error
+    F.append(("getProperties-unknown-property", '<getProperties version="1.7" device="DEV0" name="NOPE"/>', []))
+    F.append(("getProperties-unknown-property-no-device", '<getProperties version="1.7" name="NOPE"/>', []))
+    F.append(("getProperties-unknown-device", '<getProperties version="1.7" device="NOPE" name="TGT"/>', []))
+    F.append(("getProperties-empty-name", '<getProperties version="1.7" device="DEV0" name=""/>', []))
+    F.append(("getProperties-element-name", '<getProperties version="1.7" device="DEV0" name="A"/>', []))
+    F.append(("getProperties-odd-version", '<getProperties version="99.9" device="DEV0" name="TGT"/>', []))
     F.append(("unknown-tag", "<fooBar device=\"DEV0\"><oneText name=\"A\">x</oneText></fooBar>", []))
     F.append(("newLightVector", '<newLightVector device="DEV0" name="TGT"><oneLight name="A">Alert</oneLight></newLightVector>', []))
     F.append(("write-to-bystander-wrong-kind", new_msg(k, [vc], name="OTHER"), [("OTHER", "A", vv)]))
@@ -120,6 +127,10 @@ class Session:
         from mc.core import e2e
         from mc.core import vloop as V
 
+        # "<transport>+log": the deployment forwards the library's log records to the clients through indi.logging.Handler
+        # (as the example servers do), so whatever the drivers log while they refuse a message is routed as <message>
+        self.with_log = transport.endswith("+log")
+        transport = transport.split("+")[0]
         self.variant = variant
         self.kind = variant.split("-")[0]
         self.transport = transport
@@ -162,8 +173,29 @@ class Session:
             w.router.register_client(self.xh)
             w.router.register_client(self.yh)
         self.initial = self.snapshot()
+        self.log_handler = None
+        if self.with_log:
+            import logging
+
+            import indi.logging as IL
+
+            self.log_handler = IL.Handler(w.router)
+            lg = logging.getLogger("indi")
+            self._log_saved = (lg.propagate, lg.level, logging.root.manager.disable)
+            lg.propagate = False
+            lg.setLevel(logging.WARNING)
+            lg.addHandler(self.log_handler)
+            logging.disable(logging.NOTSET)
 
     def close(self):
+        if self.log_handler is not None:
+            import logging
+
+            lg = logging.getLogger("indi")
+            lg.removeHandler(self.log_handler)
+            lg.propagate, lvl, dis = self._log_saved
+            lg.setLevel(lvl)
+            logging.disable(dis)
         self.w.close()
 
     def snapshot(self):
@@ -244,6 +276,7 @@ def run_session(variant, transport, faults, slots, glued=False):
     try:
         fails = obs["fails"]
         d0 = "transport=%s" % transport
+        transport = transport.split("+")[0]
         wk = kind if kind != "light" else None
         steps = []
         steps.append(("getProperties", '<getProperties version="1.7"/>'))
@@ -368,6 +401,7 @@ def run_session(variant, transport, faults, slots, glued=False):
         errs = s.w.loop.collect_errors()
         if errs:
             fails.append(("loop-error", d0, "fault %s: %r" % (fids, [e.get("message") for e in errs][:3])))
+        obs["log_notices"] = s.output("Y").count("<message") if s.with_log else 0
     finally:
         s.close()
     return obs
@@ -391,8 +425,10 @@ def short(v):
 def shards(tier, seed):
     sh = []
     for variant in KINDS:
-        for transport in ("tcp", "tty", "direct"):
+        for transport in ("tcp", "tty", "direct", "tcp+log", "direct+log"):
             sh.append((tier, variant, transport, "single"))
+            if "+" in transport:
+                continue
             if tier == "thorough":
                 sh.append((tier, variant, transport, "pairs"))
     return sh
@@ -421,10 +457,11 @@ def run_shard(shard):
     if mode == "single":
         for f in cat:
             for slot in range(4):
-                for glued in (False, True) if transport != "direct" else (False,):
+                for glued in (False, True) if not transport.startswith("direct") else (False,):
                     o = run_session(variant, transport, [f], [slot], glued)
                     res["evaluations"] += 1
                     res["sessions_with_fault_delivered"] += 1 if o.get("delivered_faults") else 0
+                    res["counters"]["log_notices_routed"] = res["counters"].get("log_notices_routed", 0) + o.get("log_notices", 0)
                     record([f], [slot, "glued"] if glued else [slot], o["fails"])
         # two faults in one session: each fault with its successor in the catalogue (thorough: all ordered pairs)
         for k, f1 in enumerate(cat):
@@ -455,10 +492,12 @@ def finish(tier, seed, m):
         "the fault(s) injected at the stated slot(s); sessions are distinct by (kind, transport, fault ids, slots); non-trivial = at least one fault "
         "was actually delivered to message handling (direct transport skips faults the parser rejects)",
         "faults_in_catalogue": len(catalogue("text")),
+        "transports": ["tcp", "tty", "direct", "tcp with indi.logging.Handler attached", "direct with indi.logging.Handler attached"],
+        "log_records_routed_as_message_notices": m["counters"].get("log_notices_routed", 0),
         "samples": m["samples"][:2],
         "exhaustive": True,
     }
-    cov["_vacuity_errors"] = [] if m["sessions_with_fault_delivered"] > 500 else ["few sessions with delivered faults"]
+    cov["_vacuity_errors"] = ([] if m["sessions_with_fault_delivered"] > 500 else ["few sessions with delivered faults"]) + ([] if m["counters"].get("log_notices_routed", 0) > 50 else ["the log-forwarding handler was barely exercised"])
     return cov
 
 
